@@ -734,6 +734,8 @@ class Parser:
                 self._eat_token()
             else:
                 break
+        if leave_vararg and self.current_token.type == TokenType.ELLIPSIS:
+            self._error("Expected a comma in front of the varargs", self.current_token)
         return names
 
     def _parse_var(self, in_statement: bool = False) -> Expression:
